@@ -250,7 +250,13 @@ def handle (st : St) (args : List String) (impl : String) : St × Verdict :=
   | ["vleafpos", _] =>
     (st, cmpModel (showNatList (vLeafPosIter (⟨st.hashes, st.elems, st.removed⟩ : DBackend Bytes Bytes))) impl)
   | ["vleafidx", _, f] => match nat? f with
-    | some f => (st, cmpModel (showNatList (vLeafIdxIter (⟨st.hashes, st.elems, st.removed⟩ : DBackend Bytes Bytes) f)) impl)
+    | some f =>
+      let m := vLeafIdxIter (⟨st.hashes, st.elems, st.removed⟩ : DBackend Bytes Bytes) f
+      -- the value the property fixes: exactly the unpruned leaves' insertion indices >= from, ascending
+      -- (each maps back to its position); compared as a spec value whenever the model function agrees
+      let spec := (List.range (nLeaves st.hashes.length)).filter fun i =>
+        decide (f ≤ i) && !st.removed.contains (insertionToPmmrIndex i)
+      (st, (if m == spec then cmpSpec else cmpModel) (showNatList m) impl)
     | none => (st, .unknown)
   | ["vroot", s] => match nat? s with
     | some s => if s ≤ st.hashes.length then
